@@ -71,16 +71,18 @@ func TestVerifC05Node(t *testing.T) {
 
 type c05Node struct {
 	dir, addr string
-	cmd       *exec.Cmd
-	mu        sync.Mutex
-	starts    int
+	// delay (ms) between FSM.Snapshot() and the start of Persist() in the node process
+	persistDelay string
+	cmd          *exec.Cmd
+	mu           sync.Mutex
+	starts       int
 }
 
 func (nd *c05Node) start() error {
 	nd.mu.Lock()
 	defer nd.mu.Unlock()
 	cmd := exec.Command(os.Args[0], "-test.run", "^TestVerifC05Node$", "-test.timeout", "30m")
-	cmd.Env = append(os.Environ(), "VERIF_C05_DIR="+nd.dir, "VERIF_LISTEN="+nd.addr, "VERIF_OUT=/dev/null", "TMPDIR="+filepath.Dir(nd.dir))
+	cmd.Env = append(os.Environ(), "VERIF_PERSIST_DELAY_MS="+nd.persistDelay, "VERIF_C05_DIR="+nd.dir, "VERIF_LISTEN="+nd.addr, "VERIF_OUT=/dev/null", "TMPDIR="+filepath.Dir(nd.dir))
 	lf, _ := os.OpenFile(filepath.Join(filepath.Dir(nd.dir), "node.log"), os.O_CREATE|os.O_APPEND|os.O_WRONLY, 0644)
 	cmd.Stdout, cmd.Stderr = lf, lf
 	if err := cmd.Start(); err != nil {
@@ -162,7 +164,7 @@ func TestVerifC05A(t *testing.T) {
 func c05Round(rep *verifrep.R, seed int64, dir string) {
 	rng := rand.New(rand.NewSource(seed))
 	os.MkdirAll(dir, 0755)
-	nd := &c05Node{dir: filepath.Join(dir, "node"), addr: freeAddr()}
+	nd := &c05Node{dir: filepath.Join(dir, "node"), addr: freeAddr(), persistDelay: []string{"0", "60", "25"}[(seed>>1)%3]}
 	c := newClient("http://" + nd.addr)
 	c.hc.Timeout = 5 * time.Second
 	viol := func(key, what string, w map[string]interface{}) {
@@ -305,6 +307,21 @@ func c05Round(rep *verifrep.R, seed int64, dir string) {
 			}
 		}()
 	}
+	// a client that keeps changing its nickname: unlike a PRIVMSG, a NICK that is applied a second
+	// time (by a node that starts from a snapshot holding more than its index says) answers differently
+	if nc := mk("nc0"); nc != nil {
+		owg.Add(1)
+		go func() {
+			defer owg.Done()
+			for k := 1; ctx.Err() == nil; k++ {
+				reliable(nc, fmt.Sprintf("NICK nc%d", k%4), nextCm(), time.Now().Add(3*time.Second))
+				select {
+				case <-ctx.Done():
+				case <-time.After(time.Duration(4+k%5*3) * time.Millisecond):
+				}
+			}
+		}()
+	}
 	// fault injector
 	kills, snaps := 0, 0
 	faults := 3 + rng.Intn(3)
@@ -437,7 +454,7 @@ func c05Round(rep *verifrep.R, seed int64, dir string) {
 		live[oi].mu.Lock()
 		var lv []string
 		for _, m := range live[oi].msgs {
-			lv = append(lv, fmt.Sprintf("%d.%d", m.Id.Id, m.Id.Reply))
+			lv = append(lv, fmt.Sprintf("%d.%d %s", m.Id.Id, m.Id.Reply, c05Text(m.Data)))
 			if strings.Contains(m.Data, sentinel) {
 				break
 			}
@@ -445,9 +462,9 @@ func c05Round(rep *verifrep.R, seed int64, dir string) {
 		live[oi].mu.Unlock()
 		var fv []string
 		for _, m := range fetched {
-			fv = append(fv, fmt.Sprintf("%d.%d", m.Id.Id, m.Id.Reply))
+			fv = append(fv, fmt.Sprintf("%d.%d %s", m.Id.Id, m.Id.Reply, c05Text(m.Data)))
 		}
-		if strings.Join(lv, ",") != strings.Join(fv, ",") {
+		if strings.Join(lv, "\x00") != strings.Join(fv, "\x00") {
 			viol("resumed-stream-differs", fmt.Sprintf("observer %d: the stream read live with lastseen resumes (%d messages) differs from the stream fetched afterwards (%d messages): %s", oi, len(lv), len(fv), firstDiff(lv, fv)), map[string]interface{}{"faults": faultLog})
 		}
 		rep.Obs("streams-fetched", 1)
@@ -464,6 +481,15 @@ func c05Round(rep *verifrep.R, seed int64, dir string) {
 	rep.Obs("posts-acknowledged", ackedN/nO)
 	rep.Obs("posts-open", openN/nO)
 	rep.Sample(map[string]interface{}{"seed": seed, "senders": nS, "observers": nO, "faults": faultLog, "acknowledged": ackedN / nO})
+}
+
+// c05Text is the text of a delivered message; numeric 003 carries the start time of the
+// server instance that produced it and legitimately differs after a restart.
+func c05Text(data string) string {
+	if f := strings.Fields(data); len(f) > 1 && f[1] == "003" {
+		return "003 (masked)"
+	}
+	return data
 }
 
 func firstDiff(a, b []string) string {
